@@ -67,13 +67,21 @@ impl TypeDependencyGraph {
         let mut visited = HashSet::new();
         let mut visiting = HashSet::new();
 
-        for type_name in types {
+        // Visit in name order so that the result does not depend on hash iteration order
+        for type_name in Self::sorted_names(types) {
             if !visited.contains(type_name) {
                 self.topological_visit(type_name, &mut sorted, &mut visited, &mut visiting);
             }
         }
 
         sorted
+    }
+
+    /// The names of a set in lexicographic order
+    fn sorted_names(names: &HashSet<String>) -> Vec<&String> {
+        let mut ordered: Vec<&String> = names.iter().collect();
+        ordered.sort();
+        ordered
     }
 
     /// Recursive helper for topological sorting with cycle detection
@@ -101,7 +109,7 @@ impl TypeDependencyGraph {
 
         // Visit dependencies first
         if let Some(deps) = self.dependencies.get(type_name) {
-            for dep in deps {
+            for dep in Self::sorted_names(deps) {
                 self.topological_visit(dep, sorted, visited, visiting);
             }
         }
